@@ -101,8 +101,10 @@ def check_guards(ctx, lib):
     ok = len(errs) == 1 and errs[0]["rv"]["variant"] == "InvalidSlice"
     fc = [(bb, t) for bb, t in b.calls() if bb in zreg and t["callee"] == "errors::JmespathError::from_ctx"]
     ok = ok and len(fc) == 1
+    # (the context reached through the parameter itself or a re-borrow of it handed to an inlined helper)
     stores = [(bb, s) for bb in zreg for s in b.blocks[bb]["stmts"] if s["k"] == "assign" and s["place"]["p"] and
-              any(isinstance(e, dict) and e.get("name") == "offset" for e in s["place"]["p"]) and s["place"]["l"] == 3]
+              any(isinstance(e, dict) and e.get("name") == "offset" for e in s["place"]["p"]) and
+              (s["place"]["l"] == 3 or o.of_local(s["place"]["l"]) == {("param", 3)})]
     ok_store = len(stores) == 1 and o.of_operand(stores[0][1]["rv"]["op"]) == {("field", ("param", 2), "Slice.offset")} and \
         bool(fc) and b.dominates(stores[0][0], fc[0][0])
     ctx.check(ok, rule, "step-zero-error", "step == 0 yields InvalidSlice built from the context, nothing is sliced", b.span)
@@ -199,7 +201,9 @@ def check_parse_index(ctx, lib):
         ix_ = [e for e in writes[0][1]["place"]["p"] if isinstance(e, dict) and "idx" in e]
     ctx.check(ok, rule, "slot-write", "a number is stored as Some(n) in the current slot parts[pos]", b.span)
     # omitted parts stay None: the array is initialised with three None
-    init = [s for _, _, s in b.stmts() if s["k"] == "assign" and s["rv"]["k"] == "agg" and s["rv"]["ak"] == "array"]
+    # (only arrays of optional numbers: message formatting inlined from an error helper builds argument arrays too)
+    init = [s for _, _, s in b.stmts() if s["k"] == "assign" and s["rv"]["k"] == "agg" and s["rv"]["ak"] == "array" and
+            "Option<i32>" in ((s["place"].get("ty") or "") or (b.local_ty(s["place"]["l"]) or ""))]
     ok = len(init) == 1 and len(init[0]["rv"]["ops"]) == 3 and all(
         o.of_operand(x) == {("agg", "std::option::Option::None", (), ())} or
         all(t[0] == "agg" and t[1] == "std::option::Option::None" for t in o.of_operand(x)) for x in init[0]["rv"]["ops"])
